@@ -421,9 +421,20 @@ impl Typer {
             _ => self.infer_expr(genv, local_env, diagnostics, e),
         };
 
+        let was_dyn = matches!(expr_tast.get_ty(), tast::Ty::TDyn { .. });
         let expr_tast = self.coerce_to_expected_dyn(genv, diagnostics, e, expr_tast, expected);
         self.push_constraint(Constraint::TypeEqual(expr_tast.get_ty(), expected.clone()));
-        self.record_expr_result(e, &expr_tast);
+        // The result table describes the expression itself. A `dyn` coercion wrapped around it
+        // here is recorded separately (push_coercion) and re-applied by the TAST builder, so the
+        // expression keeps its own type (otherwise `let d: dyn T = Variant;` rebuilt the
+        // constructor at type `dyn T` and the Go backend panicked).
+        match &expr_tast {
+            tast::Expr::EToDyn { expr: inner, .. } if !was_dyn => {
+                let inner = inner.as_ref().clone();
+                self.record_expr_result(e, &inner);
+            }
+            _ => self.record_expr_result(e, &expr_tast),
+        }
         expr_tast
     }
 
